@@ -52,7 +52,7 @@ def base_path(kind):
     return p
 
 
-BASES = ['int-full', 'float', 'minimal']
+BASES = ['int-full', 'float', 'minimal', 'handle']         # 'handle': the int-full file loaded from an open file object
 
 
 def ops():
@@ -107,9 +107,21 @@ def meta_only(f):
     return f[2]
 
 
+_HANDLES = []
+
+
 def build(base, hist):
     import FlowCal
-    d = FlowCal.io.FCSData(base_path(base))
+    if base == 'handle':
+        fh = open(base_path('int-full'), 'rb')
+        _HANDLES.append(fh)
+        if len(_HANDLES) > 200:
+            for h_ in _HANDLES[:100]:
+                h_.close()
+            del _HANDLES[:100]
+        d = FlowCal.io.FCSData(fh)
+    else:
+        d = FlowCal.io.FCSData(base_path(base))
     O = ops()
     for h in hist:
         with warnings.catch_warnings():
@@ -125,6 +137,8 @@ def check_clones(res, base, hist, one_base):
     import FlowCal
     n = 0
     for how in CLONES:
+        if base == 'handle' and how.startswith('pickle'):
+            continue            # an open file object cannot be pickled (nor could it before); copies and views must work
         one = dict(kind='clone-one', base=base, hist=list(hist), how=how)
         d = build(base, hist)
         f0 = fp(d)
@@ -295,6 +309,9 @@ def run_case(c):
                     ev = [list(r) for r in base['events']]
                     ev[i][j] += 1            # the next representable value (adjacent bit pattern)
                     edits.append(('float%s cell (%d,%d) next representable value' % (dt, i, j), (base, dict(base, events=ev))))
+            # two loads of one file with infinite events must still compare equal
+            inf_l = dict(base, events=[[fcsgen.float_bits(float('inf'), dt), fcsgen.float_bits(1.0, dt)], [fcsgen.float_bits(float('-inf'), dt), fcsgen.float_bits(2.5, dt)]])
+            edits.append(('float%s identical files with +-inf events' % dt, (inf_l, inf_l, 'must-equal')))
             ev = [list(r) for r in base['events']]
             ev[2][0] = fcsgen.float_bits(-0.0, dt)
             edits.append(('float%s +0.0 -> -0.0 (equal values; either answer accepted)' % dt, (base, dict(base, events=ev), 'either')))
@@ -331,6 +348,12 @@ def run_case(c):
         else:
             other = write(l2)
             refl = ref
+        if either and l2[2] == 'must-equal':
+            if not (refl == other) or (refl != other) or hash(refl) != hash(other):
+                res.violation('file-eq:identical-unequal', '%s compare unequal' % name, dict(c))
+            else:
+                res.ok('file-eq:identical', True)
+            continue
         if either:
             res.ok('file-eq:equal-valued-cells', True)
             continue
